@@ -35,6 +35,9 @@ def email_doc(rng):
     lines = []
     for _ in range(rng.randrange(0, 8)):
         h = rng.choice(HEADERS); v = rng.choice(VALUES)
+        if rng.random() < 0.1:
+            from props import c17
+            h, v = rng.choice(["Description-Content-Type", "Content-Type"]), c17.rand_ctype(rng)
         if rng.random() < 0.1: v = v + "\n  continued"
         lines.append(h + rng.choice([": ", ":", " : "]) + v)
     body = rng.choice(["", "", "\nbody text\n", "\n--x\n\nhi\n--x--\n", "\n\xff\xfe\n", "\ncaf\xe9"])
@@ -51,7 +54,10 @@ def raw_dict(rng):
     if rng.random() < 0.9: d["version"] = rng.choice(["1.0", "1.0a1", "x", "{}", "1.0+local"])
     for _ in range(rng.randrange(0, 5)):
         k = rng.random()
-        if k < 0.4: d[rng.choice(RAW_STR)] = rng.choice(VALUES)
+        if k < 0.1:
+            from props import c17
+            d["description_content_type"] = c17.rand_ctype(rng)
+        elif k < 0.4: d[rng.choice(RAW_STR)] = rng.choice(VALUES)
         elif k < 0.8: d[rng.choice(RAW_LIST)] = [rng.choice(VALUES) for _ in range(rng.randrange(0, 3))]
         elif k < 0.9: d["project_urls"] = {rng.choice(["Home", "Docs", "{x}"]): rng.choice(["https://x.org", "{0}", ""])}
         else: d[rng.choice(["bogus", "from_raw", "__doc__", "_raw", "from_email", "Name", "{x}"])] = rng.choice(["x", "{y}"])
